@@ -18,6 +18,10 @@ package tools
 //@   pure
 //@   modifies nothing
 //
+//@ func UpperCamelCase
+//@   pure
+//@   modifies nothing
+//
 //@ func StringInListEqualFold
 //@   modifies nothing
 //@   ensures  result == (exists i: int :: 0 <= i && i < len(haystack) && eqfold(haystack[i], needle))
